@@ -92,7 +92,7 @@ enum, else the include index of the first qualified typedef of the chain in file
 inductive EnumDen (p : Program) : Nat → Bytes → Nat × Bytes → Int → Prop
   | enum {j f b} : p[j]? = some f → Declares f b .enum → EnumDen p j b (j, b) (-1)
   | tdLoc {j f td n e idx} : p[j]? = some f → td ∈ f.typedefs → td.type = .name n →
-      specBase n = none → splitLastDot n = none → EnumDen p j n e idx →
+      specBase n = none → isContainerName n = false → splitLastDot n = none → EnumDen p j n e idx →
       EnumDen p j td.alias e idx
   | tdQual {j f td n a b} {k : Nat} {j' c e idx} : p[j]? = some f → td ∈ f.typedefs → td.type = .name n →
       specBase n = none → splitLastDot n = some (a, b) →
@@ -106,7 +106,7 @@ def EnumHasValue (p : Program) (e : Nat × Bytes) (v : Bytes) : Prop :=
 /-- What the identifier `id`, used as a constant value in file `i`, can name, with the binding
 (`ConstValueExtra`) each reading gives. -/
 inductive ConstCand (p : Program) (i : Nat) (id : Bytes) : Extra → Prop
-  | localConst {f} : p[i]? = some f → splitLastDot id = none → Declares f id .constant →
+  | localConst {f} : p[i]? = some f → id ≠ [] → splitLastDot id = none → Declares f id .constant →
       ConstCand p i id ⟨false, -1, id, []⟩
   | enumValue {a v e idx} : splitLastDot id = some (a, v) → EnumDen p i a e idx → EnumHasValue p e v →
       ConstCand p i id ⟨true, idx, v, a⟩
@@ -148,14 +148,6 @@ def RFile.bindsAt (rf : RFile) (s : Slot) : Option (List (Option Extra)) := look
 
 /-- `Service.Reference` of service `s`. -/
 def RFile.svcRef (rf : RFile) (s : Bytes) : Option (Option Ref) := lookupB s rf.svcRefs
-
-/-- No global name is empty, a base-type keyword or a container keyword (dots are allowed).  The
-grammar excludes empty names; it does not stop a definition from being called `list` or `i32`, and
-`getEnum` follows a typedef of `list<…>` / `i32` to a definition of that name. -/
-def File.saneNames (f : File) : Bool :=
-  f.names.all fun n => !n.isEmpty && (specBase n).isNone && !isContainerName n
-
-def Program.saneNames (p : Program) : Bool := p.all File.saneNames
 
 /-- Something in the file is bound through include `k`: a type node with Reference index `k`, an
 identifier value whose Extra has Index `k`, or a service whose base service Reference has index `k`. -/
